@@ -111,7 +111,15 @@ def run_one(ck, tm, tier, ws):
                 mism = c is not None and ((c[0].op == "ne" and c[1] == 1) or (c[0].op == "eq" and c[1] == 0))
                 notunw = any(d_[0].op == "ret" and d_[0].args[0] == "std::thread::panicking" and d_[1] == 0 for d_ in v.decisions)
                 dv = [e for e in v.trace if e.kind == "diverge"]
-                lv, strs, callees = deps(v, dv[-1].args[0].e) if dv and dv[-1].args and isinstance(dv[-1].args[0], Opaque) else (set(), set(), set())
+                # everything handed to the diverging call: the formatted message of panic!, or the two operands assert_eq!/assert_ne! pass
+                # by reference (which the panic message prints as left/right)
+                lv, strs, callees = set(), set(), set()
+                for a_ in (dv[-1].args if dv else []) or []:
+                    for x_ in _leaf_values(a_):
+                        l_, s_, c_ = deps(v, x_.e)
+                        lv |= l_ | {x_.e}
+                        strs |= s_
+                        callees |= c_
                 other = [x for x in c[0].args if x != loads[0].ret.e][0] if c else None
                 has_both = "std::sync::atomic::Atomic::<usize>::load" in callees and other is not None and any(
                     l == other or (other.op in ("deref", "ref") and l in deps(v, other)[0]) for l in lv | {other})
@@ -148,6 +156,61 @@ def run_one(ck, tm, tier, ws):
     # R6.8 ... and is read for the verdict while the injector lock is still held (shared with C07 R7.3)
     verdict_under_lock(ck, tm, "R6.8")
     verifiers_kept_until_scope_exit(ck, tm, "R6.8")
+
+
+def counting_fakes_hand_out_their_counter(ck, tm, tier, ws, rule):
+    """Every fake! arm whose generated function counts calls on a static returns a verifier that carries that very static (and the
+    budget) - R6.4. Repeated by C07: the per-installation reset in the library reaches a counter only through the verifier, so a
+    counting arm that hands out a counter-less verifier is never reset. Returns the number of arms decided."""
+    hm = mac.get(ws, tm.facts, tier)
+    vtypes = roles.verifier_types(tm.facts)
+    n = 0
+    for mod, d in hm.modules("fake"):
+        arm = d["arm"]
+        if not hm.accepted(mod):
+            continue
+        fake = mod + "::instantiate::fake"
+        counters = set()
+        for v in hm.variants(fake):
+            for e in rmw_events(v):
+                counters.add(static_of(e.args[0]))
+        if not counters:
+            continue
+        n += 1
+        key = "arm%02d[%s]/%s" % (arm.index, arm.label(), d["shape"]["name"])
+        for v in hm.variants(mod + "::instantiate"):
+            if v.status != "returned":
+                continue
+            ver = None
+            if isinstance(v.ret, Tup):
+                for x in v.ret.elems:
+                    if isinstance(x, Adt) and any(x.path.split("::")[-1] == vt.split("::")[-1] for vt in vtypes):
+                        ver = x
+            ok = ver is not None and len(ver.fields) >= 1 and static_of(ver.fields[0]) in counters and len(counters) == 1
+            ck.ob(rule, "%s/counting-fake-hands-out-its-counter" % key, tm.target, ok,
+                  "the generated fake counts on %s; the verifier returned with it is %s" % (sorted(c for c in counters if c), ver),
+                  "src/interface/macros.rs:%d" % arm.line)
+    return n
+
+
+def _leaf_values(a, depth=0):
+    """Int / Opaque values reachable from an argument through references and aggregate fields."""
+    from ..interp import Ref, Adt, Tup
+    if depth > 4:
+        return
+    if isinstance(a, (Int, Opaque)):
+        yield a
+    elif isinstance(a, Ref):
+        try:
+            yield from _leaf_values(get_path(a.cell.val, a.path), depth + 1)
+        except Exception:
+            return
+    elif isinstance(a, Adt):
+        for f in a.fields:
+            yield from _leaf_values(f, depth + 1)
+    elif isinstance(a, Tup):
+        for f in a.elems:
+            yield from _leaf_values(f, depth + 1)
 
 
 def hm_times():
